@@ -99,6 +99,22 @@ CLAIMED = {
         'with and without the index section. One defect found and fixed.',
    note='Trusted: Coq kernel+VM; cexpr translator; cshim; CMPH as a tested oracle; strcmp/strlen per ISO C.',
    ref='DESIGN.md §4 C14'),
+ 'C18': dict(
+   technique='Coq proof of an invariant over all schedules of a small-step process/file-system model + replay of schedules on the real CacheStore under a baton scheduler',
+   text='Theorems (Coq, axiom-free): for every schedule — any number of processes, any interleaving of their system '
+        'calls, kills at any point, any history of source modifications, unlinks and unreadable entries — an operation '
+        'that finishes returns the parse of a version that was current at some moment during it (C18_safe); every '
+        'readable file ever published under the entry name is a complete parse stamped no later than the version it '
+        'holds, so an entry older than its source is never accepted and a half-written temporary is never visible '
+        '(C18_published, C18_validated_entry). The code as found is refuted by two schedules (C18_stale_refuted_a/b), '
+        'both reproduced on the real CacheStore, then fixed. Tie: the real CacheStore and Transformer._parse_include run '
+        'in threads with every shared system call as a yield point; event lists (Spawn/Step/Modify/Kill/Unlink/Garbage) '
+        'are replayed on the implementation and on the model evaluated in Coq and the per-process results compared. '
+        '"Using the cache never changes the GIR" is checked under C16 (cold/warm).',
+   note='Trusted: Coq kernel+VM; rename atomicity within one file system (shutil.move across devices not modelled); '
+        'strictly increasing mtimes (logical clock); pickle prefix never loads; one entry; the harness scheduler and '
+        'its monkeypatched os/pickle/shutil proxies; threads stand for processes.',
+   ref='DESIGN.md §4 C18'),
 }
 
 PLANNED = {}
